@@ -145,7 +145,7 @@ func (c *Ctx) Violation(what string, replay any) {
 	if len(c.violations) >= 25 {
 		return
 	}
-	dir := filepath.Join(tlc.Root(), "evidence", "replays")
+	dir := filepath.Join(EvidenceDir(), "replays")
 	os.MkdirAll(dir, 0o755)
 	path := filepath.Join(dir, fmt.Sprintf("%s-%s-%d.json", c.ID, c.Tier, len(c.violations)+1))
 	b, _ := json.MarshalIndent(map[string]any{"property": c.ID, "what": what, "seed": c.Seed, "tier": c.Tier, "case": replay}, "", " ")
@@ -174,6 +174,15 @@ func (c *Ctx) HasInternal() bool {
 	c.mu.Lock()
 	defer c.mu.Unlock()
 	return len(c.internal) > 0
+}
+
+// EvidenceDir: <root>/evidence, or VERIF_OUT when a seeded change is tried in
+// a scratch tree (bin/seedpar) so that /verif/evidence is left alone.
+func EvidenceDir() string {
+	if d := os.Getenv("VERIF_OUT"); d != "" {
+		return d
+	}
+	return filepath.Join(tlc.Root(), "evidence")
 }
 
 // Finish writes the evidence file and exits with the verdict.
@@ -211,7 +220,7 @@ func (c *Ctx) Finish() {
 	}
 	nviol, ninternal := c.nviol, len(c.internal)
 	c.mu.Unlock()
-	dir := filepath.Join(tlc.Root(), "evidence")
+	dir := EvidenceDir()
 	os.MkdirAll(dir, 0o755)
 	b, _ := json.MarshalIndent(ev, "", " ")
 	if err := os.WriteFile(filepath.Join(dir, c.ID+".json"), append(b, '\n'), 0o644); err != nil {
